@@ -194,6 +194,28 @@ def gen_program(rng, n_defs=None, max_sites=3, p_fail=0.15, p_limits=0.6, p_opt=
     return Program([Defn(False, [Site(1), Site(1)]), Defn(False, [], ["r0"])], {"r0": 1})
 
 
+def gen_wide(rng, p_dup=0.15):
+    """Wide programs: one parent with 3-7 limited children competing for one or two resources with limit >= 2
+    (several jobs waiting at once, several completions before the waiting list is re-examined)."""
+    n = rng.choice([3, 4, 5, 5, 6, 7])
+    lim = rng.choice([2, 2, 3])
+    defs = [Defn(False, [], None)]
+    sites = []
+    for i in range(1, n + 1):
+        units = rng.choice([["r0"], ["r0"], {"r0": 1}, {"r0": 2}, ["r0", "r1"], {"r1": 1}])
+        kids = []
+        defs.append(Defn(rng.random() < 0.08, kids, units))
+        st = Site(i if rng.random() > p_dup or i == 1 else rng.randrange(1, i))
+        if rng.random() < 0.1:
+            st.scope = "NONE"
+        sites.append(st)
+    if rng.random() < 0.4:           # an unlimited bystander
+        defs.append(Defn(False, [], None))
+        sites.insert(rng.randrange(len(sites) + 1), Site(len(defs) - 1))
+    defs[0].sites = sites
+    return Program(defs, {"r0": lim, "r1": rng.choice([1, 2])})
+
+
 def feasible(p: Program) -> bool:
     """no job demands more of a resource than its configured limit"""
     return all(c <= p.limits_cfg.get(n, 1) for sp in p.specs for n, c in sp["limits"].items())
